@@ -456,7 +456,7 @@ PROPS = {
     'C01': dict(groups=['tree', 'alt', 'ovl']),
     'C02': dict(groups=['lockstep', 'tree', 'handles']),
     'C03': dict(groups=['tree', 'alt', 'ovl', 'handles', 'xfer', 'conc16']),
-    'C05': dict(groups=['tree', 'alt', 'ovl']),
+    'C05': dict(groups=['tree', 'alt', 'ovl', 'handles']),
     'C12': dict(groups=['tree', 'alt', 'ovl', 'join', 'faults', 'hostiledir']),
     'C13': dict(groups=['tree', 'alt', 'ovl', 'join', 'handles', 'hostile', 'hostiledir', 'emb', 'async']),
     'C07': dict(groups=['alt', 'hostile', 'hostiledir']),
